@@ -527,7 +527,7 @@ func classD(d, c int) string {
 
 func main() {
 	r := vf.NewRun("C32", "exploration",
-		"VBFT ledgers with N in {4,7,10} generated peers (C=(N-1)/3), 2 honest blocks, then candidate next headers (valid height/prev/timestamp/block root/VbftBlockInfo payload) whose Bookkeepers/SigData come from 16 list shapes (honest, permuted, below quorum, quorum listed but 1..C signing, padded, one signature repeated, one member repeated, duplicate keys, non-members listed/signing, other-hash, garbage, empty, bad first signature, random mix); each offered as bytes to AddHeaders and AddBlock on a ledger restored from the snapshot after every acceptance; distinct by (N, shape, key list, signature list).  Config-switch phase (N in {4,7}, and 10 in thorough): on the same ledger (block height 2) an honest height-3 header carrying a NewChainConfig (1..N genesis members replaced by fresh keys, same N and C; signed by C+1..N genesis members) is accepted through AddHeaders only; per case 1..4 hostile inputs from 24 classes (forged block/header for height 3 or 4 announcing a chain config of outsider keys x AddBlock/AddHeaders x before/after the honest header x signed by outsiders / too few members / nobody / members listed but unsigned; first class = case index mod 24, the others seeded, 30% exact repeats) are offered and, after the honest header and after every later hostile input, 7 height-4 follow-up headers (LastConfigBlockNum=3) that must be rejected (signed by the forged config's outsiders, by stranger outsiders, by removed genesis members, by 1..C new members padded with outsiders / removed members / duplicates / unsigned listed members), then one positive control signed by C+1.. members of the new set; every case also runs a control arm (same follow-up bytes, no hostile input) on a ledger restored from the snapshot; distinct by (N, replaced positions, signers, forged config kind, hostile step lists, follow-up lists)")
+		"VBFT ledgers with N in {4,7,10} generated peers (C=(N-1)/3), 2 honest blocks, then candidate next headers (valid height/prev/timestamp/block root/VbftBlockInfo payload) whose Bookkeepers/SigData come from 16 list shapes (honest, permuted, below quorum, quorum listed but 1..C signing, padded, one signature repeated, one member repeated, duplicate keys, non-members listed/signing, other-hash, garbage, empty, bad first signature, random mix); each offered as bytes to AddHeaders and AddBlock on a ledger restored from the snapshot after every acceptance; distinct by (N, shape, key list, signature list).  Config-switch phase (N in {4,7}, and 10 in thorough): on the same ledger (block height 2) an honest height-3 header carrying a NewChainConfig (1..N genesis members replaced by fresh keys, same N and C; signed by C+1..N genesis members) is accepted through AddHeaders only; per case 1..4 hostile inputs from 24 classes (forged block/header for height 3 or 4 announcing a chain config of outsider keys x AddBlock/AddHeaders x before/after the honest header x signed by outsiders / too few members / nobody / members listed but unsigned; first class = case index mod 24, the others seeded, 30% exact repeats) are offered and, after the honest header and after every later hostile input, 7 height-4 follow-up headers (LastConfigBlockNum=3) that must be rejected (signed by the forged config's outsiders, by stranger outsiders, by removed genesis members, by 1..C new members padded with outsiders / removed members / duplicates / unsigned listed members), then one positive control signed by C+1.. members of the new set; every case also runs a control arm (same follow-up bytes, no hostile input) on a ledger restored from the snapshot; distinct by (N, replaced positions, signers, forged config kind, hostile step lists, follow-up lists).  Stale-config-height family (every 4th config-switch case in quick, every 8th in thorough; ledger state rotating over: header 3 accepted only / block 3 also committed through AddBlock / committed and ledger reopened): height-4 headers naming LastConfigBlockNum=0 or 1..2, signed by C+1.. removed genesis members, by retained members below quorum topped up with removed ones, by all genesis members, by a quorum of the new set, each through AddHeaders and AddBlock, then a control header naming 3")
 	scratch := vf.Scratch("c32")
 	rng := vf.NewRNG(vf.Seed())
 	shs := shapes()
@@ -542,7 +542,8 @@ func main() {
 	var all []*outcome
 	var csAll []*csOutcome
 	var csNs []int
-	csPerN := vf.N(96, 1200) // config-switch cases per N (a multiple of the 24 hostile input classes)
+	csPerN := vf.N(96, 1200)   // config-switch cases per N (a multiple of the 24 hostile input classes)
+	csStaleEvery := vf.N(4, 8) // every k-th of them also runs the stale-config-height family
 	mInfo := map[string]interface{}{}
 	for ni, N := range []int{4, 7, 10} {
 		C := (N - 1) / 3
@@ -629,7 +630,7 @@ func main() {
 		})
 		// config-switch phase on the same worker ledgers (its own RNG stream: the cases above are unchanged)
 		if N != 10 || vf.Thorough() {
-			csOuts, err := runConfigSwitchPhase(ps, cfg, pool, workers, rng.Sub(uint64(1000+ni)), csPerN)
+			csOuts, err := runConfigSwitchPhase(ps, cfg, pool, workers, rng.Sub(uint64(1000+ni)), csPerN, csStaleEvery)
 			if err != nil {
 				r.Inconclusive(fmt.Sprintf("harness: config-switch phase N=%d: %v", N, err))
 			}
@@ -758,9 +759,9 @@ func main() {
 	r.Require("accepted_with_D>=C+1", 20)
 	r.Require("rejected_with_D<C+1", 20)
 	r.Require("oracle_D_equals_constructed_D", int64(total/3*3))
-	configSwitchRequire(r, csNs, csPerN)
+	configSwitchRequire(r, csNs, csPerN, csStaleEvery)
 	r.Extra("exhaustive", false)
-	r.Assume("config-switch phase: the peer set in force for a height-4 header with LastConfigBlockNum=3 is the set announced by the height-3 header that AddHeaders accepted (decoded by the monitor from that header's bytes; header index at 3, block height still 2); C is taken from the same config; follow-ups always name LastConfigBlockNum=3 (a follow-up naming an older config height is not generated); forged chain configs keep N, C and the peer indices and differ in the peer keys only")
+	r.Assume("config-switch phase: the peer set in force for a height-4 header with LastConfigBlockNum=3 is the set announced by the height-3 header that AddHeaders accepted (decoded by the monitor from that header's bytes; header index at 3, block height still 2); C is taken from the same config; follow-ups of the hostile-input arms name LastConfigBlockNum=3; in the stale-config-height family the set in force at height 4 is still the set announced at height 3 whatever height the offered header names; forged chain configs keep N, C and the peer indices and differ in the peer keys only")
 	r.Assume("main phase: membership = the peer keys of the genesis chain config (no config change block in that workload); D counts a member as signer when ANY signature of SigData verifies for its key over the header hash, listed or not (the most lenient reading, so every reported acceptance has fewer than C+1 valid signers under every reading)")
 	r.Assume("headers reach the ledger as bytes; blocks offered to AddBlock are empty (state root argument unchecked), block root taken from the ledger itself")
 	os.RemoveAll(scratch)
